@@ -90,4 +90,20 @@ PROPS = {
             "the selection time budget is modelled by an arbitrary stop oracle consulted where the code reads the clock",
         ],
     },
+    "C12": {
+        "theorems": [],
+        "modules": ["SV.Props.C12"],
+        "runs": [{"component": "immunity", "thorough_seeds": 2}],
+        "rule": "random HasOrAdd/Put/Remove/ImmunizeKeys/Clear histories over 4-12 keys through ImmunityCache and CrossTxCache, 1-16 chunks, capacities at their lower bounds, sizes 0..500; thorough adds all histories of length 5 over an 11-operation alphabet (single chunk); distinct = distinct (operation kind, canonical output incl. full dump) pairs",
+        "exhaustive": "thorough: all 11^5 histories over {hoa/rm/imm x 3 keys, 2 filler adds}, one chunk, capacity 4",
+        "assumptions": ["Go maps and container/list are modelled (association lists, lists); chunk routing by fnv32 is modelled exactly; item sizes are >= 0"],
+    },
+    "C13": {
+        "theorems": [],
+        "modules": ["SV.Props.C13"],
+        "runs": [{"component": "immunity", "thorough_seeds": 2}],
+        "rule": "random HasOrAdd/Put/Remove/ImmunizeKeys/Clear histories over 4-12 keys through ImmunityCache and CrossTxCache, 1-16 chunks, capacities at their lower bounds, sizes 0..500; thorough adds all histories of length 5 over an 11-operation alphabet (single chunk); distinct = distinct (operation kind, canonical output incl. full dump) pairs",
+        "exhaustive": "thorough: all 11^5 histories over {hoa/rm/imm x 3 keys, 2 filler adds}, one chunk, capacity 4",
+        "assumptions": ["Go maps and container/list are modelled (association lists, lists); chunk routing by fnv32 is modelled exactly; item sizes are >= 0"],
+    },
 }
